@@ -187,7 +187,7 @@ Gen(p) ==
       nCh == IF above < 0 THEN 0 ELSE above
       \* champions: strictly better than the target on x, hardly better elsewhere
       Champ(j) ==
-        LET gx == IF p.cv = "equal" THEN 600 ELSE 600 + j
+        LET gx == IF p.cv = "equal" THEN 501 ELSE 500 + j        \* the nearest champion is one rank value above the target
             special == j = 1 /\ p.cv \in {"noban1", "out1"}
         IN Mk(j, 100 + j, G(x, "grp", gx, 11), G(x, "ping", gx, 11), G(x, "tx", gx, 11), G(x, "blk", gx, 11),
               "relay", FALSE, FALSE, "ipv4", FALSE, special /\ p.cv = "noban1",
@@ -196,10 +196,12 @@ Gen(p) ==
       Target(t) ==
         Mk(nCh + 1 + t, 300 - t, G(x, "grp", 500, 10), G(x, "ping", 500, 10), G(x, "tx", 500, 10), G(x, "blk", 500, 10),
            p.tflav, p.tflav = "relay", TRUE, "ipv4", FALSE, FALSE, "inbound")
-      \* fillers: worse than the target on x, better on everything else, older, every network
+      \* fillers: worse than the target on x, better on everything else, older, every network.  Rank values are abstract: the replay
+      \* maps them to real field values at several resolutions (adjacent values 1 ns / 100 ns / 1 us / 1 ms apart for pings ...)
       Fill(i) ==
         LET v == 100 + (i % p.fmod)
-        IN Mk(nCh + 1 + p.tied + i, i, v, v, v, v,
+            vx == IF i = 1 THEN 499 ELSE v        \* the longest-connected filler is the target's nearest competitor: one rank value below it
+        IN Mk(nCh + 1 + p.tied + i, i, G(x, "grp", vx, v), G(x, "ping", vx, v), G(x, "tx", vx, v), G(x, "blk", vx, v),
               IF i % 4 = 0 THEN "bro" ELSE IF i % 9 = 5 THEN "plain" ELSE "relay", i % 5 = 0, FALSE,
               Nets[1 + (i % 6)], i % 6 = 5, FALSE, "inbound")
       base == nCh + 1 + p.tied + p.nfill
